@@ -1,7 +1,36 @@
+"""C01 (and the parts C05/C13/C15 reuse): the standard sampler's live set."""
 from pyvc.contracts import contract
-from .shapes import LP_ROW
+from .shapes import LP_ROW, LP_ARR, NS, EV
 
-NS = "nessai/samplers/nestedsampler.py"
+# ---------------------------------------------------------------- LiveInv
+# The class invariant of the standard sampler between iterations.
+LIVE_INV = [
+    "self.nlive >= 1",
+    "len(self.live_points) == self.nlive",
+    "sorted_by(self.live_points, 'logL')",
+    # bookkeeping agrees: one evidence entry per discarded point (+ the
+    # initial -inf entry), one insertion index per accepted replacement
+    "len(self.state.logLs) == len(self.nested_samples) + 1",
+    "self.iteration == len(self.nested_samples)",
+    # the discarded likelihoods are non-decreasing and below the live set
+    "sorted_by(self.nested_samples, 'logL')",
+    "forall(i, 0, len(self.nested_samples), "
+    "self.nested_samples[i]['logL'] <= self.live_points[0]['logL'])",
+    # the evidence state integrated exactly the discarded likelihoods
+    "forall(i, 0, len(self.nested_samples), "
+    "self.state.logLs[i + 1] == self.nested_samples[i]['logL'])",
+    # birth clause (reused by C05): every live point was born strictly
+    # above the contour recorded for its iteration
+    "forall(i, 0, self.nlive, 0 <= self.live_points[i]['it'] and "
+    "self.live_points[i]['it'] < len(self.state.logLs) and "
+    "self.state.logLs[self.live_points[i]['it']] < "
+    "self.live_points[i]['logL'])",
+    "forall(i, 0, len(self.nested_samples), "
+    "0 <= self.nested_samples[i]['it'] and "
+    "self.nested_samples[i]['it'] <= i and "
+    "self.state.logLs[self.nested_samples[i]['it']] < "
+    "self.nested_samples[i]['logL'])",
+]
 
 contract(
     NS, "NestedSampler.insert_live_point", props=["C01", "C13"],
@@ -19,9 +48,250 @@ contract(
         "sorted_by(self.live_points, 'logL')",
         "0 <= result and result < self.nlive",
         "row_eq(self.live_points[result], live_point)",
-        "forall(i, 0, result, row_eq(self.live_points[i], old(self.live_points)[i + 1]))",
-        "forall(i, result + 1, self.nlive, row_eq(self.live_points[i], old(self.live_points)[i]))",
-        "forall(i, 0, result, self.live_points[i]['logL'] < live_point['logL'])",
-        "forall(i, result + 1, self.nlive, live_point['logL'] <= self.live_points[i]['logL'])",
+        "forall(i, 0, result, row_eq(self.live_points[i], "
+        "old(self.live_points)[i + 1]))",
+        "forall(i, result + 1, self.nlive, row_eq(self.live_points[i], "
+        "old(self.live_points)[i]))",
+    ],
+)
+
+# evidence-state update as far as C01/C13 need it (C02 proves the
+# quadrature; this is the same contract, verified against the same body)
+contract(
+    EV, "_NSIntegralState.increment", props=["C01", "C02", "C13", "C05"],
+    params={"logL": "Real", "nlive": "Opt(Int)"},
+    requires=["implies(nlive is None, self.base_nlive >= 1)",
+              "implies(nlive is not None, nlive >= 1)",
+              "len(self.logLs) >= 1", "len(self.info) >= 1",
+              "len(self.log_vols) == len(self.logLs)"],
+    modifies=["self.nlive", "self.logZ", "self.info", "self.logw",
+              "self.logLs", "self.log_vols", "self.gradients"],
+    ensures=[
+        "len(self.logLs) == old(len(self.logLs)) + 1",
+        "self.logLs[len(self.logLs) - 1] == logL",
+        "forall(i, 0, old(len(self.logLs)), "
+        "self.logLs[i] == old(self.logLs)[i])",
+        "len(self.nlive) == old(len(self.nlive)) + 1",
+        "self.nlive[len(self.nlive) - 1] == "
+        "(old(self.base_nlive) if nlive is None else nlive)",
+        "forall(i, 0, old(len(self.nlive)), "
+        "self.nlive[i] == old(self.nlive)[i])",
+        "len(self.log_vols) == len(self.logLs)",
+        "len(self.info) >= 1",
+    ],
+)
+
+contract(
+    NS, "NestedSampler.yield_sample", props=["C01", "C13"],
+    generator=True,
+    params={"oldparam": f"Opt({LP_ROW})"},
+    requires=[],
+    modifies=["self.logLmax", "self.proposal.populated",
+              "self.proposal._checked_population",
+              "self.proposal.population_acceptance", "self.proposal.r",
+              "self.model.likelihood_evaluations"],
+    returns=f"Tuple(Int,Opt({LP_ROW}))",
+    loops={
+        0: {"unroll_first": True},
+        1: {"inv": ["counter >= 0", "row_eq(oldparam, old(oldparam))"],
+            "modifies": ["self.logLmax", "self.proposal.populated",
+                         "self.proposal._checked_population",
+                         "self.proposal.population_acceptance",
+                         "self.proposal.r",
+                         "self.model.likelihood_evaluations"]},
+    },
+    ensures=[
+        "result[0] >= 1",
+        "implies(oldparam is not None, result[1] is not None)",
+        # either an accepted point: finite prior, strictly above the contour
+        # or the untouched old point with an emptied proposal
+        "(result[1] is not None and result[1]['logP'] != -INF and "
+        "result[1]['logL'] > self.logLmin) or "
+        "(row_eq(result[1], oldparam) and not self.proposal.populated)",
+    ],
+)
+
+# ---- frames of the bookkeeping methods (bodies: training, plotting,
+# checkpointing -- outside the symbolic subset; their *frame* is an
+# obligation discharged by syntactic frame inference, checks/frames_check.py)
+FRAME_REASON = ("body not symbolically executed (training / plotting / "
+                "checkpoint I/O); only its frame is relied on and that is "
+                "discharged by frame inference over the call graph")
+contract(
+    NS, "NestedSampler.check_state", props=["C01", "C13", "C15"],
+    trusted=True, trusted_reason=FRAME_REASON, frame_check=True,
+    params={"force": "Bool"},
+    modifies=["self.block_acceptance", "self.block_iteration",
+              "self.proposal"],
+)
+contract(
+    NS, "NestedSampler.update_state", props=["C01", "C13", "C15"],
+    trusted=True, trusted_reason=FRAME_REASON, frame_check=True,
+    params={"force": "Bool"},
+    modifies=["self.block_acceptance", "self.block_iteration",
+              "self.proposal"],
+)
+
+CONSUME_MOD = [
+    "self.live_points", "self.logLmin", "self.logLmax", "self.state",
+    "self.nested_samples", "self.condition", "self.iteration",
+    "self.block_iteration", "self.insertion_indices", "self.accepted",
+    "self.rejected", "self.block_acceptance", "self.acceptance_history",
+    "self.mean_block_acceptance", "self.proposal", "self.model",
+]
+
+contract(
+    NS, "NestedSampler.consume_sample", props=["C01", "C13", "C15", "C05"],
+    requires=LIVE_INV + [
+        "self.state.base_nlive >= 1",
+        "len(self.state.info) >= 1",
+        "len(self.state.log_vols) == len(self.state.logLs)",
+        "self.block_iteration >= 0",
+    ],
+    modifies=CONSUME_MOD,
+    loops={
+        0: {"inv": [
+            "count >= 0",
+            "self.block_iteration != 0",
+            # the live set is untouched until the replacement is accepted
+            "len(self.live_points) == self.nlive",
+            "forall(i, 0, self.nlive, row_eq(self.live_points[i], "
+            "old(self.live_points)[i]))",
+            "self.logLmin == old(self.live_points)[0]['logL']",
+            "self.iteration == old(self.iteration) + 1",
+            "row_eq(worst, old(self.live_points)[0])",
+        ],
+            "modifies": ["self.rejected", "self.block_iteration",
+                         "self.block_acceptance", "self.proposal",
+                         "self.logLmax", "self.model"]},
+    },
+    ensures=LIVE_INV + [
+        # the removed point is the minimum and is recorded exactly once
+        "len(self.nested_samples) == old(len(self.nested_samples)) + 1",
+        "row_eq(self.nested_samples[len(self.nested_samples) - 1], "
+        "old(self.live_points)[0])",
+        "forall(i, 0, old(len(self.nested_samples)), "
+        "row_eq(self.nested_samples[i], old(self.nested_samples)[i]))",
+        # ... and integrated exactly once
+        "len(self.state.logLs) == old(len(self.state.logLs)) + 1",
+        "self.state.logLs[len(self.state.logLs) - 1] == "
+        "old(self.live_points)[0]['logL']",
+        "self.logLmin == old(self.live_points)[0]['logL']",
+        "self.iteration == old(self.iteration) + 1",
+        # the replacement: finite prior, strictly above the removed point,
+        # at the recorded insertion index; every other live point untouched
+        "len(self.insertion_indices) == old(len(self.insertion_indices)) + 1",
+        "let(r, self.insertion_indices[len(self.insertion_indices) - 1], "
+        "0 <= r and r < self.nlive and "
+        "self.live_points[r]['logL'] > old(self.live_points)[0]['logL'] and "
+        "self.live_points[r]['logP'] != -INF and "
+        "self.live_points[r]['it'] == self.iteration and "
+        "forall(i, 0, r, row_eq(self.live_points[i], "
+        "old(self.live_points)[i + 1])) and "
+        "forall(i, r + 1, self.nlive, row_eq(self.live_points[i], "
+        "old(self.live_points)[i])))",
+        "self.accepted == old(self.accepted) + 1",
+    ],
+)
+
+LVP = "nessai/livepoint.py"
+contract(
+    LVP, "empty_structured_array", props=["C01", "C18"],
+    trusted=True,
+    trusted_reason="dtype construction is library-level; C18 covers the "
+    "field order/defaults of this function separately",
+    params={"n": "Int", "names": "Any", "non_sampling_parameters": "Bool"},
+    requires=["n >= 0"],
+    returns=LP_ARR,
+    ensures=["len(result) == n"],
+)
+
+contract(
+    NS, "NestedSampler.populate_live_points", props=["C01"],
+    requires=["self.nlive >= 1"],
+    modifies=["self.live_points", "self.logLmax", "self.proposal",
+              "self.model"],
+    loops={
+        0: {"inv": ["0 <= i and i <= self.nlive",
+                    "len(live_points) == self.nlive",
+                    "forall(k, 0, i, isfinite(live_points[k]['logL']) and "
+                    "isfinite(live_points[k]['logP']))"],
+            "modifies": ["self.logLmax", "self.proposal", "self.model"]},
+        1: {"inv": ["0 <= i and i <= self.nlive",
+                    "len(live_points) == self.nlive",
+                    "forall(k, 0, i, isfinite(live_points[k]['logL']) and "
+                    "isfinite(live_points[k]['logP']))"],
+            "modifies": ["self.logLmax", "self.proposal", "self.model"]},
+    },
+    ensures=[
+        "len(self.live_points) == self.nlive",
+        "sorted_by(self.live_points, 'logL')",
+        "forall(k, 0, self.nlive, self.live_points[k]['it'] == 0)",
+        "forall(k, 0, self.nlive, isfinite(self.live_points[k]['logL']) and "
+        "isfinite(self.live_points[k]['logP']))",
+    ],
+)
+
+contract(
+    EV, "_NSIntegralState.finalise", props=["C01", "C02", "C05", "C15"],
+    trusted=True, trusted_reason="quadrature value proved under C02; here "
+    "only the frame is used",
+    modifies=["self.logZ"], returns="Real",
+)
+
+contract(
+    NS, "NestedSampler.finalise", props=["C01", "C15", "C05"],
+    requires=LIVE_INV + [
+        "self.state.base_nlive >= 1",
+        "len(self.state.info) >= 1",
+        "len(self.state.log_vols) == len(self.state.logLs)",
+        "len(self.state.nlive) == len(self.nested_samples)",
+    ],
+    modifies=["self.state", "self.nested_samples", "self.live_points",
+              "self.finalised", "self.block_acceptance",
+              "self.block_iteration", "self.proposal"],
+    loops={
+        0: {"index": "k",
+            "inv": [
+                "len(self.nested_samples) == old(len(self.nested_samples)) + k",
+                "len(self.state.logLs) == old(len(self.state.logLs)) + k",
+                "len(self.state.nlive) == old(len(self.state.nlive)) + k",
+                "len(self.state.info) >= 1",
+                "len(self.state.log_vols) == len(self.state.logLs)",
+                "self.state.base_nlive >= 1",
+                "forall(j, 0, old(len(self.nested_samples)), row_eq("
+                "self.nested_samples[j], old(self.nested_samples)[j]))",
+                "forall(j, 0, k, row_eq(self.nested_samples["
+                "old(len(self.nested_samples)) + j], "
+                "old(self.live_points)[j]))",
+                "forall(j, 0, old(len(self.state.logLs)), "
+                "self.state.logLs[j] == old(self.state.logLs)[j])",
+                "forall(j, 0, k, self.state.logLs["
+                "old(len(self.state.logLs)) + j] == "
+                "old(self.live_points)[j]['logL'])",
+                "forall(j, 0, k, self.state.nlive["
+                "old(len(self.state.nlive)) + j] == self.nlive - j)",
+                "forall(j, 0, old(len(self.state.nlive)), "
+                "self.state.nlive[j] == old(self.state.nlive)[j])",
+            ],
+            "modifies": ["self.state", "self.nested_samples"]},
+    },
+    ensures=[
+        # every remaining live point consumed exactly once, in order
+        "len(self.nested_samples) == old(len(self.nested_samples)) + "
+        "self.nlive",
+        "forall(j, 0, old(len(self.nested_samples)), row_eq("
+        "self.nested_samples[j], old(self.nested_samples)[j]))",
+        "forall(j, 0, self.nlive, row_eq(self.nested_samples["
+        "old(len(self.nested_samples)) + j], old(self.live_points)[j]))",
+        "len(self.state.logLs) == len(self.nested_samples) + 1",
+        "forall(j, 0, self.nlive, self.state.logLs["
+        "old(len(self.state.logLs)) + j] == old(self.live_points)[j]['logL'])",
+        # with the shrinking live-count schedule nlive, nlive-1, ..., 1
+        "forall(j, 0, self.nlive, self.state.nlive["
+        "old(len(self.state.nlive)) + j] == self.nlive - j)",
+        "sorted_by(self.nested_samples, 'logL')",
+        "self.finalised",
+        "self.live_points is None",
     ],
 )
